@@ -93,7 +93,11 @@ pub fn gen_ops(rng: &mut Rng, n_recs: usize, has_err: bool, w: &Weights, max_ops
         } else if pick(w.setpolicy) {
             ops.push(Op::SetPolicy(gen::gen_growing_policy(rng)));
         } else {
-            ops.push(Op::IterSlot(rng.below(N_SLOTS)));
+            match rng.below(6) {
+                0 => ops.push(Op::ShrinkSlot(rng.below(N_SLOTS))),
+                1 => ops.push(Op::CloneSlot(rng.below(N_SLOTS), rng.below(N_SLOTS))),
+                _ => ops.push(Op::IterSlot(rng.below(N_SLOTS))),
+            }
         }
     }
     ops
